@@ -11,10 +11,32 @@ pub struct Msg {
     pub scenario: u32,
     pub text: String,
     pub blob: Vec<u8>,
+    /// last field: a message whose serialization fails AFTER everything above has been written
+    /// (the way a `SystemTime` before the epoch or a map with non-string keys fails in real messages)
+    pub poison: Poison,
+}
+
+#[derive(Clone, Copy, Debug, PartialEq, Eq, Default)]
+pub struct Poison(pub bool);
+
+impl Serialize for Poison {
+    fn serialize<S: serde::Serializer>(&self, s: S) -> Result<S::Ok, S::Error> {
+        if self.0 {
+            Err(serde::ser::Error::custom("this message cannot be encoded"))
+        } else {
+            s.serialize_bool(false)
+        }
+    }
+}
+
+impl<'de> Deserialize<'de> for Poison {
+    fn deserialize<D: serde::Deserializer<'de>>(d: D) -> Result<Self, D::Error> {
+        bool::deserialize(d).map(Poison)
+    }
 }
 
 pub type CallLog = Arc<Mutex<Vec<(String, String, Msg)>>>;
-pub const N_SCENARIOS: u32 = 8;
+pub const N_SCENARIOS: u32 = 12;
 const CODES: [StatusCode; 7] = [
     StatusCode::BadRequest,
     StatusCode::NotFound,
@@ -29,12 +51,18 @@ static NEXT: std::sync::atomic::AtomicU64 = std::sync::atomic::AtomicU64::new(1)
 
 pub fn make_request(scenario: u32) -> (Request<Msg>, u64) {
     let id = NEXT.fetch_add(1, std::sync::atomic::Ordering::SeqCst);
-    let msg = Msg { id, scenario, text: format!("héllo-{id}"), blob: (0..(id % 300) as usize).map(|i| (i * 7) as u8).collect() };
+    let mut msg = sent_msg(id, scenario);
+    // scenario 8: the REQUEST cannot be encoded (and the call after it, scenario 9, is ordinary)
+    msg.poison = Poison(scenario == 8);
     (Request::new(msg).with_header("x-req", id.to_string()), id)
 }
 
+fn sent_msg(id: u64, scenario: u32) -> Msg {
+    Msg { id, scenario, text: format!("héllo-{id}"), blob: (0..(id % 300) as usize).map(|i| (i * 7) as u8).collect(), poison: Poison(false) }
+}
+
 fn reply(m: &Msg) -> Msg {
-    Msg { id: m.id, scenario: m.scenario, text: format!("reply to {}", m.text), blob: m.blob.iter().rev().copied().collect() }
+    Msg { id: m.id, scenario: m.scenario, text: format!("reply to {}", m.text), blob: m.blob.iter().rev().copied().collect(), poison: Poison(false) }
 }
 
 /// The error a scripted handler returns, in every shape a `Status` can have: code only, message
@@ -71,6 +99,8 @@ pub fn handle(log: &CallLog, service: &str, method: &str, request: Request<Msg>)
     match m.scenario {
         2 | 3 => Err(status_for(&m)),
         4 => Ok(Response::new(reply(&m)).with_header("x-resp", "v")),
+        // scenario 10: the RESPONSE cannot be encoded (and the call after it, scenario 11, is ordinary)
+        10 => Ok(Response::new(Msg { poison: Poison(true), ..reply(&m) })),
         _ => Ok(Response::new(reply(&m))),
     }
 }
@@ -107,25 +137,35 @@ pub fn judge(
     let calls: Vec<(String, String, Msg)> = std::mem::take(&mut *log.lock().unwrap());
     let mut problems: Vec<String> = Vec::new();
     // dispatch: exactly one handler invocation, of (service, method), carrying the request sent
-    if calls.len() != 1 {
+    if scenario == 8 {
+        // nothing can have been sent
+        if !calls.is_empty() {
+            problems.push("a request that cannot be encoded reached a handler".into());
+        }
+    } else if calls.len() != 1 {
         problems.push(format!("{} handler invocations for one typed call: {:?}", calls.len(), calls.iter().map(|c| (&c.0, &c.1)).collect::<Vec<_>>()));
     } else {
         let (s, m, msg) = &calls[0];
         if s != service || m != method {
             problems.push(format!("typed call {service}::{method} reached handler {s}::{m}"));
         }
-        let want = Msg { id, scenario, text: format!("héllo-{id}"), blob: (0..(id % 300) as usize).map(|i| (i * 7) as u8).collect() };
+        let want = sent_msg(id, scenario);
         if *msg != want {
             problems.push("handler received a different request message".into());
         }
     }
-    let sent = Msg { id, scenario, text: format!("héllo-{id}"), blob: (0..(id % 300) as usize).map(|i| (i * 7) as u8).collect() };
+    let sent = sent_msg(id, scenario);
     let expect_err_status = matches!(scenario, 2 | 3);
+    // a message that cannot be encoded - the request (8), or the response of a typed handler (10) -
+    // must surface as an error status; raw-bytes handlers encode their responses themselves
+    let unencodable = scenario == 8 || (scenario == 10 && !raw);
     let undecodable = raw && (scenario == 5 || scenario == 6 || (scenario == 7 && json));
     match &r {
         Ok(resp) => {
             if expect_err_status {
                 problems.push("handler returned an error status but the client returned Ok".into());
+            } else if unencodable {
+                problems.push(format!("a message that cannot be encoded (scenario {scenario}) surfaced as a typed success: {:?}", resp.body()));
             } else if undecodable {
                 problems.push(format!("undecodable payload (scenario {scenario}) surfaced as a typed success: {:?}", resp.body()));
             } else if *resp.body() != reply(&sent) {
@@ -150,8 +190,8 @@ pub fn judge(
                 if msg_hdr != want_msg {
                     problems.push(format!("status message lost or altered (status shape {}): got {:?}, handler set {:?}", (id / 7) % 6, msg_hdr.map(|m| m.chars().take(40).collect::<String>()), want_msg.map(|m| m.chars().take(40).collect::<String>())));
                 }
-            } else if !undecodable {
-                problems.push(format!("handler succeeded but the client returned an error status {:?}", st.status()));
+            } else if !undecodable && !unencodable {
+                problems.push(format!("handler succeeded but the client returned an error status {:?} (scenario {scenario})", st.status()));
             }
         }
     }
